@@ -547,7 +547,7 @@ impl<'a> Judge<'a> {
     fn against_reference(&mut self, rep: &mut Report, i: usize, x: f64, obs: &(C64, C64, C64), where_: &str) {
         let (rv, rd) = self.rf.eval(i, x);
         let (uv, ud) = self.rf.units(i, x);
-        let ev = (obs.0 - rv).norm().max((obs.1 - rv).norm());
+        let ev = nmax((obs.0 - rv).norm(), (obs.1 - rv).norm());
         let ed = (obs.2 - rd).norm();
         let (qv, qd) = (if ev == 0.0 { 0.0 } else { ev / uv }, if ed == 0.0 { 0.0 } else { ed / ud });
         rep.max(&format!("{}/value_err_over_unit", self.name), qv);
@@ -663,7 +663,7 @@ fn run_spline<N: Fld>(rep: &mut Report, c: &Case, stage_tag: &str) {
         let (uvl, udl) = rf.units(li, x);
         let (uvr, udr) = rf.units(ri, x);
         let (uv, ud) = (uvl.max(uvr), udl.max(udr));
-        let ev = (o.0 - c.ys[k]).norm().max((o.1 - c.ys[k]).norm());
+        let ev = nmax((o.0 - c.ys[k]).norm(), (o.1 - c.ys[k]).norm());
         let q = if ev == 0.0 { 0.0 } else { ev / uv };
         rep.max(&format!("{}/interpolation_err_over_unit", name), q);
         rep.count(&format!("{}/points_knot", name), 1);
